@@ -153,6 +153,7 @@ func solveOne(o *Obligation, cfg solveCfg) {
 			o.Output = out
 		} else {
 			o.Status = "covered"
+			os.Remove(o.SMT)
 		}
 		return
 	}
